@@ -145,7 +145,17 @@ def expected_parallax(geo, mask, stack, W, u, sx, sy, env=None):
     return np.array(out)
 
 
-RT_GRAD = 3e-4     # float32 gradient (trigonometric sums over up to 14 terms) -> phase ramp; observed <= 2e-5
+# the implementation evaluates the ramp exp(-i grad . q) in float32: its phase 2 pi s q reaches hundreds of radians for
+# shifts of tens of Angstrom at the (upsampled) Nyquist frequency, and float32 resolves a phase phi only to ~1e-7 phi.
+# Observed over 700 cases: error <= 1.1e-6 * S with S = max|shift| * max|q| (S up to 170); the tolerance follows S.
+RT_GRAD = 1e-4
+RT_GRAD_PER_PHASE = 6e-6
+
+
+def rt_grad(geo, cfg, sx, sy, mask):
+    smax = max(float(np.abs(sx[mask]).max()), float(np.abs(sy[mask]).max()))
+    qmax = cfg["u"] / (2 * min(geo["scan_sampling"])) * math.sqrt(2)
+    return RT_GRAD + RT_GRAD_PER_PHASE * smax * qmax
 
 
 def oracle_parallax_grad(ctx, geo, cfg, stack=None):
@@ -171,7 +181,7 @@ def oracle_parallax_grad(ctx, geo, cfg, stack=None):
     exp = expected_parallax(geo, mask, stack, W, cfg["u"], sx, sy, env)
     got = M.rec(dp, **M.rkw(cfg, b=max(1, nbf // 2)))
     scale = max(float(np.abs(exp).max()), 1e-30)
-    ok, err = M.close(got, exp, RT_GRAD, scale)
+    ok, err = M.close(got, exp, rt_grad(geo, cfg, sx, sy, mask), scale)
     out = []
     if not ok:
         out.append(("parallax-shift-identity/general-aberrations",
@@ -312,7 +322,7 @@ def oracle_variants(ctx, geo, cfg, pad, sub_l=None):
                 out.append(("mask-representation-dependence",
                             "bf_mask given as %s raises %s: %s (torch bool works)" % (nm, type(e).__name__, e), {"rep": nm}))
                 continue
-            ok, err = M.close(got, base, 1e-6, max(float(np.abs(base).max()), 1e-30))
+            ok, err = M.close(got, base, 1e-4, max(float(np.abs(base).max()), scale))
             worst = max(worst, err if math.isfinite(err) else 0.0)
             if not ok:
                 out.append(("mask-representation-dependence",
@@ -536,7 +546,8 @@ def recorded_gamma_calls(dp, kw):
     return calls
 
 
-RT_GAMMA = 2e-3    # float32 phases up to ~100 rad (|chi| * 6e-8 * few operations); observed <= 1e-4
+RT_GAMMA = 2e-3            # |gamma| <= 2; observed <= 1.1e-4 over 150 cases
+RT_GAMMA_PER_PHASE = 2e-6  # float32 phases: |chi| * 6e-8 * a few operations, where the aperture is open
 
 
 def gamma_case(ctx, geo, cfg):
@@ -575,6 +586,8 @@ def gamma_case(ctx, geo, cfg):
         Am, cm = parts(qm[0], qm[1])
         Ap, cp = parts(qp[0], qp[1])
         closed = gamma_closed(Ak, ck, Am, cm, Ap, cp)
+        chimax = max(float(np.abs(ck * (Ak > 0)).max()), float(np.abs(cm * (Am > 0)).max()), float(np.abs(cp * (Ap > 0)).max()))
+        tol = RT_GAMMA + RT_GAMMA_PER_PHASE * chimax
         got = g.cpu().numpy().astype(np.complex128)
         e1 = float(np.abs(closed - direct).max())
         e2 = float(np.abs(got - closed).max())
@@ -585,7 +598,7 @@ def gamma_case(ctx, geo, cfg):
         n += got.size
         if e1 > 1e-9:
             out.append(("gamma-closed-form-harness", "harness: closed form and definition differ by %.3g" % e1, {}))
-        if e2 > RT_GAMMA or e3 > RT_GAMMA:
+        if e2 > tol or e3 > tol:
             out.append(("gamma-correspondence",
                         "gamma_factor output differs from the closed form A(k)[A(q-k)E(chi(q-k)-chi(k)) - A(q+k)E(chi(k)-chi(q+k))] "
                         "of the Coq model (float64, own aperture / surface) by %.3g (probe at k: %.3g)" % (e2, e3), {}))
@@ -629,6 +642,16 @@ def icom_pipeline_case(ctx, geo, cfg, sub):
 def run_ext(ctx: Ctx):
     r = ctx.rng
     worst = {}
+    # --- corpus (regression cases of this extension) first
+    for c in M.corpus(ctx).get("crop", []):
+        if c.get("which") == "crop-parallax":
+            found, err = oracle_cropped_parallax(ctx, c["geo"], c["cfg"], c["pad"])
+            M.report(ctx, found, c["geo"], c["cfg"], "crop-parallax", {"pad": c["pad"]})
+        else:
+            found, err = oracle_variants(ctx, c["geo"], c["cfg"], c["pad"], c.get("sub"))
+            M.report(ctx, found, c["geo"], c["cfg"], "variants", {"pad": c["pad"], "sub": c.get("sub")})
+        ctx.count(("corpus-crop", json.dumps(c["geo"], sort_keys=True), json.dumps(c["cfg"], sort_keys=True)), nontrivial=True)
+        ctx.dist("corpus/crop")
     # --- parallax with general aberrations (gradient of the surface), per-image DC
     worst["parallax-general"] = 0.0
     libw = 0.0
